@@ -1,33 +1,521 @@
-import RustCcModel.Proofs.InvReach
-import RustCcModel.Proofs.CountsSimp
-/-! **The counts never exceed their maximum** (C16): in every reachable world every strong count is at most `MAX` and
-every weak count at most the weak `MAX` — no operation wraps or spills into the flag bits. -/
+import RustCcModel.Proofs.DroppedMono
+import RustCcModel.Proofs.WeakInv
+/-! **The counts never exceed their maximum** (C16): in every world of the running machine every strong count is at most
+`MAX` and every weak count at most the weak `MAX`. -/
 namespace RustCc
 open World
 
-structure MaxOk (c : Cfg) (w : World) : Prop where
-  rc : ∀ x, (w.heap x).rc ≤ c.rcMax
-  weak : ∀ x, (w.metas x).weak ≤ c.weakMax
+def RcOk (c : Cfg) (w : World) : Prop := ∀ x, (w.heap x).rc ≤ c.rcMax
 
-macro "mx_tac" : tactic => `(tactic| (
-  refine ⟨fun y => ?_, fun y => ?_⟩ <;>
-  (simp [World.upd, World.updMeta, Heap.set, World.putH, World.startCollect, World.cloneOk, World.setH, World.setW, World.setK, World.push,
-     World.emit, canClone] <;>
-   (repeat' split) <;>
-   (first
-    | done
-    | (have h1 := ‹MaxOk _ _›.rc y; have h2 := ‹MaxOk _ _›.weak y; simp_all; done)
-    | (have h1 := ‹MaxOk _ _›.rc y; have h2 := ‹MaxOk _ _›.weak y; simp_all; omega)
-    | (have h1 := ‹MaxOk _ _›.rc y; have h2 := ‹MaxOk _ _›.weak y; omega)))))
+theorem upd_rc_le (c : Cfg) (w : World) (t : Id) (g : Obj → Obj) (hg : ∀ o, (g o).rc ≤ o.rc) (h : RcOk c w) : RcOk c (w.upd t g) := by
+  intro u
+  by_cases e : u = t
+  · subst e; simp only [upd, Heap.set, if_true]; exact Nat.le_trans (hg _) (h u)
+  · simp only [upd, Heap.set, e, if_false]; exact h u
+
+theorem upd_rc_set (c : Cfg) (w : World) (t : Id) (g : Obj → Obj) (hg : (g (w.heap t)).rc ≤ c.rcMax) (h : RcOk c w) : RcOk c (w.upd t g) := by
+  intro u
+  by_cases e : u = t
+  · subst e; simpa [upd, Heap.set] using hg
+  · simp only [upd, Heap.set, e, if_false]; exact h u
+
+theorem RcOk.congr {c : Cfg} {w w' : World} (h : RcOk c w) (hh : ∀ x, (w'.heap x).rc = (w.heap x).rc) : RcOk c w' := by
+  intro x; rw [hh]; exact h x
+
+theorem weakDrop_heap' (w : World) (r : WRef) : (w.weakDrop r).heap = w.heap := by
+  unfold weakDrop; cases r with
+  | dangling => rfl
+  | to y => simp only; split <;> rfl
+
+theorem putH_heap' (w : World) (k : Nat) (x : Id) : (w.putH k x).heap = w.heap := by
+  unfold putH; split <;> rfl
+
+theorem upd_rc (w : World) (t : Id) (g : Obj → Obj) (u : Id) :
+    ((w.upd t g).heap u).rc = if u = t then (g (w.heap t)).rc else (w.heap u).rc := by
+  by_cases e : u = t
+  · subst e; simp [upd]
+  · simp [upd, Heap.set, e]
+
+@[simp] theorem setSlot_rc' (o : Obj) (s : Slot) (v : Option Id) : (setSlot o s v).rc = o.rc := by cases s <;> rfl
+
+macro "rc_tac" h:term : tactic => `(tactic| (
+  intro y
+  have hy := $h y
+  simp only [upd_rc, removeFromList_rc, addToList_rc, dropMetadata_rc, initMeta_rc, freeBox_rc, cloneOk_rc, World.setH, World.setW,
+    World.setK, World.startCollect, World.emit, World.push, World.updMeta_heap, putH_heap', s_raise_heap, s_raiseLogged_heap, setSlot_rc',
+    weakDrop_heap']
+  repeat' split
+  all_goals (first | exact hy | (simp_all [canClone]; done) | (simp_all [canClone]; omega) | (subst_vars; simp_all [canClone]; omega))))
 
 set_option maxHeartbeats 16000000 in
-theorem execOp_maxOk (c : Cfg) (w : World) (self wc : Option Id) (op : Op) (h1 : 1 ≤ c.rcMax) (h2 : 1 ≤ c.weakMax)
-    (h : MaxOk c w) : MaxOk c (execOp c w self wc op) := by
+theorem execOp_rcOk (c : Cfg) (w : World) (self wc : Option Id) (op : Op) (h1 : 1 ≤ c.rcMax) (h : RcOk c w) :
+    RcOk c (execOp c w self wc op) := by
   cases op with
-  | fault kind n j => cases kind <;> exact ⟨h.rc, h.weak⟩
+  | fault kind n j => cases kind <;> exact h
   | _ =>
     simp only [execOp]
     repeat' split
-    all_goals mx_tac
+    all_goals (rc_tac h)
+
+theorem updAll_rc_same (w : World) (l : List Id) (g : Obj → Obj) (u : Id) (hg : ∀ o, (g o).rc = o.rc) :
+    ((w.updAll l g).heap u).rc = (w.heap u).rc := by
+  unfold updAll
+  induction l generalizing w with
+  | nil => rfl
+  | cons x r ih =>
+    simp only [List.foldl_cons]; rw [ih, upd_rc]
+    split
+    · rename_i e; subst e; exact hg _
+    · rfl
+
+theorem foldl_free_rc_le (c : Cfg) (N : List Id) : ∀ (w : World) (x : Id),
+    ((N.foldl (fun w x => (if c.weak then w.dropMetadata x else w).freeBox x) w).heap x).rc ≤ (w.heap x).rc := by
+  induction N with
+  | nil => intro w x; exact Nat.le_refl _
+  | cons y r ih =>
+    intro w x; simp only [List.foldl_cons]
+    refine Nat.le_trans (ih _ x) ?_
+    rw [freeBox_rc]
+    split
+    · exact Nat.zero_le _
+    · split <;> simp
+
+theorem takeField_rc (o : Obj) : (takeField o).2.rc = o.rc := by
+  unfold takeField
+  repeat' split
+  all_goals rfl
+
+theorem startDealloc_rc (c : Cfg) (w : World) (N : List Id) (x : Id) : ((startDealloc c w N).heap x).rc = (w.heap x).rc := by
+  unfold startDealloc
+  simp only []
+  have h1 : ∀ W : World, ((W.updAll N fun o => { o with doomed := true }).heap x).rc = (W.heap x).rc :=
+    fun W => updAll_rc_same W N (fun o : Obj => { o with doomed := true }) x (fun _ => rfl)
+  have h2 : ∀ W : World, ((W.updAll N fun o => { o with dropped := true }).heap x).rc = (W.heap x).rc :=
+    fun W => updAll_rc_same W N (fun o : Obj => { o with dropped := true }) x (fun _ => rfl)
+  split
+  · rw [h2, h1]; rfl
+  · rw [h1]; rfl
+
+theorem destroyLast_rc_le (c : Cfg) (w : World) (y x : Id) : ((destroyLast c w y).heap x).rc ≤ (w.heap x).rc := by
+  unfold destroyLast
+  simp only []
+  split
+  · simp only [World.push_heap, upd_rc, removeFromList_rc]
+    repeat' split
+    all_goals (first | omega | (subst_vars; omega) | simp)
+  · simp only [World.push_heap, upd_rc, removeFromList_rc]
+    repeat' split
+    all_goals (first | omega | (subst_vars; omega) | simp)
+
+set_option maxHeartbeats 16000000 in
+theorem stepFrame_rcOk (c : Cfg) (w : World) (f : Frame) (h1 : 1 ≤ c.rcMax)
+    (hz : ∀ k id sp sw, f = .newCyclicEnd k id sp sw → (w.heap id).rc = 0) (h : RcOk c w) : RcOk c (stepFrame c w f) := by
+  cases f with
+  | script ops self wc top =>
+    cases ops with
+    | nil => exact h
+    | cons op ops =>
+      simp only [stepFrame]
+      have := execOp_rcOk c (w.push (.script ops self wc top)) self wc op h1 h
+      split <;> exact this
+  | collectPass =>
+    simp only [stepFrame]
+    generalize tracePhasesF _ _ _ _ _ = r
+    obtain ⟨res, fault⟩ := r
+    cases res with
+    | panicked hh pcRest log => simp only []; intro y; simp only [s_raiseLogged_heap]; exact h y
+    | done s =>
+      simp only []
+      split
+      · intro y; exact h y
+      · split
+        · intro y; exact h y
+        · intro y; rw [startDealloc_rc]; exact h y
+  | finalizePass N r hasFin oF =>
+    cases r with
+    | nil =>
+      simp only [stepFrame]
+      split
+      · intro y; rw [startDealloc_rc]; exact h y
+      · intro y
+        show ((({ w with finalizing := oF } : World).updAll N fun o => { o with tc := 0, mark := .pc }).heap y).rc ≤ _
+        rw [updAll_rc_same _ _ (fun o : Obj => { o with tc := 0, mark := .pc }) _ (fun _ => rfl)]; exact h y
+    | cons x r => simp only [stepFrame]; split <;> (rc_tac h)
+  | deallocDrop N r oD =>
+    cases r with
+    | cons x r => simp only [stepFrame]; split <;> (rc_tac h)
+    | nil =>
+      simp only [stepFrame]
+      split
+      · exact h
+      · intro y; exact Nat.le_trans (foldl_free_rc_le c N w y) (h y)
+  | dropFields x unw =>
+    simp only [stepFrame]
+    have ht := takeField_rc (w.heap x)
+    split
+    · rename_i z o' hzz
+      rw [hzz] at ht
+      intro y
+      simp only [World.push_heap, upd_rc]
+      split
+      · rw [show o'.rc = (w.heap x).rc from ht]; exact h x
+      · exact h y
+    · rename_i z o' hzz
+      rw [hzz] at ht
+      intro y
+      simp only [weakDrop_heap', World.push_heap, upd_rc]
+      split
+      · rw [show o'.rc = (w.heap x).rc from ht]; exact h x
+      · exact h y
+    · split <;> exact h
+  | dropCc x =>
+    simp only [stepFrame]
+    repeat' split
+    all_goals first
+      | (rc_tac h)
+      | (intro y; exact Nat.le_trans (destroyLast_rc_le c _ x y) (h y))
+  | dropCcAfterFin x oF =>
+    simp only [stepFrame]
+    split
+    · rc_tac h
+    · intro y; exact Nat.le_trans (destroyLast_rc_le c _ x y) (h y)
+  | newCyclicEnd k id sp selfw =>
+    have hz0 := hz k id sp selfw rfl
+    simp only [stepFrame]
+    repeat' split
+    all_goals (intro y; have hy := h y; simp only [putH_heap', weakDrop_heap', upd_rc, World.push, World.setH, World.updMeta_heap, s_raise_heap];
+               repeat' split
+               all_goals (first | exact hy | (subst_vars; simp_all; done) | (subst_vars; simp_all; omega) | (simp_all; done) | (simp_all; omega)))
+  | regInsert owner script k cap =>
+    simp only [stepFrame]
+    split
+    · exact h
+    · split
+      · rc_tac h
+      · rename_i m hm hb
+        have hgen : ∀ (idx : Nat) (om' : Obj), om'.rc = (w.heap m).rc →
+            RcOk c (if (((({ w with nextAid := w.nextAid + 1 } : World).upd m fun _ => om').initMeta m).metas m).weak ≥ c.weakMax then
+                ((({ w with nextAid := w.nextAid + 1 } : World).upd m fun _ => om').initMeta m).raise
+              else ((((({ w with nextAid := w.nextAid + 1 } : World).upd m fun _ => om').initMeta m).updMeta m
+                fun mm => { mm with weak := mm.weak + 1 }).removeFromList m).setK k (some (m, idx, w.nextAid))) := by
+          intro idx om' hom y
+          have hy := h y
+          split
+          · simp only [s_raise_heap, initMeta_rc, upd_rc]
+            split
+            · rename_i e; subst e; rw [hom]; exact hy
+            · exact hy
+          · simp only [World.setK, removeFromList_rc, World.updMeta_heap, initMeta_rc, upd_rc]
+            split
+            · rename_i e; subst e; rw [hom]; exact hy
+            · exact hy
+        cases hfr : (w.heap m).afree with
+        | nil => simp only []; refine hgen _ _ ?_; rfl
+        | cons i fr => simp only []; refine hgen _ _ ?_; rfl
+  | newAlloc k sp =>
+    simp only [stepFrame]
+    intro y
+    simp only [putH_heap', World.emit]
+    show ((w.heap.set w.next (newObj c w sp)) y).rc ≤ _
+    simp only [Heap.set]
+    split
+    · simpa [newObj] using h1
+    · exact h y
+  | newCyclicAlloc k sp body selfw =>
+    simp only [stepFrame]
+    have key : ∀ y, ((w.heap.set w.next ({ newObj c w sp with rc := 0, valLive := false, hasMeta := true } : Obj)) y).rc ≤ c.rcMax := by
+      intro y
+      simp only [Heap.set]
+      split
+      · exact Nat.zero_le _
+      · exact h y
+    split
+    · intro y; simp only [s_raiseLogged_heap]; exact key y
+    · intro y; exact key y
+  | mapAlloc owner =>
+    simp only [stepFrame]
+    have key : ∀ (o : Obj), o.rc ≤ c.rcMax → ∀ y, ((w.heap.set w.next o) y).rc ≤ c.rcMax := by
+      intro o ho y
+      simp only [Heap.set]
+      split
+      · exact ho
+      · exact h y
+    split
+    · intro y
+      simp only [upd_rc]
+      split
+      · rename_i e; subst e; exact key _ h1 y
+      · exact key _ h1 y
+    · intro y; exact key _ h1 y
+  | _ =>
+    simp only [stepFrame]
+    repeat' split
+    all_goals first
+      | exact h
+      | (rc_tac h)
+
+/-! ### Weak counts -/
+
+def WkOk (c : Cfg) (w : World) : Prop := ∀ x, (w.metas x).weak ≤ c.weakMax
+
+theorem updMeta_wk (w : World) (t : Id) (g : Meta → Meta) (u : Id) :
+    ((w.updMeta t g).metas u).weak = if u = t then (g (w.metas t)).weak else (w.metas u).weak := by
+  by_cases e : u = t
+  · subst e; simp [updMeta, Metas.set]
+  · simp [updMeta, Metas.set, e]
+
+theorem initMeta_wk (w : World) (t u : Id) :
+    ((w.initMeta t).metas u).weak = if u = t ∧ (w.heap t).hasMeta = false then 0 else (w.metas u).weak := by
+  unfold initMeta
+  split
+  · rename_i h; simp [h]
+  · rename_i h
+    simp only [updMeta_wk, upd_metas]
+    by_cases e : u = t
+    · subst e; simp [h]
+    · simp [e]
+
+theorem dropMetadata_wk (w : World) (t u : Id) : ((w.dropMetadata t).metas u).weak = (w.metas u).weak := by
+  unfold dropMetadata
+  split
+  · split
+    · simp only [emit_metas, updMeta_wk]; split
+      · subst_vars; rfl
+      · rfl
+    · simp only [updMeta_wk]; split
+      · subst_vars; rfl
+      · rfl
+  · rfl
+
+theorem weakDrop_wk_le (w : World) (r : WRef) (u : Id) : ((w.weakDrop r).metas u).weak ≤ (w.metas u).weak := by
+  unfold weakDrop
+  cases r with
+  | dangling => exact Nat.le_refl _
+  | to y =>
+    simp only
+    split
+    · simp only [emit_metas, updMeta_wk]
+      repeat' split
+      all_goals (first | omega | (subst_vars; omega) | (subst_vars; simp; omega) | simp)
+    · simp only [updMeta_wk]
+      split
+      · subst_vars; omega
+      · exact Nat.le_refl _
+
+theorem weakDrop_to_wk (w : World) (t u : Id) :
+    ((w.weakDrop (.to t)).metas u).weak = if u = t then (w.metas t).weak - 1 else (w.metas u).weak := by
+  unfold weakDrop
+  simp only
+  split
+  · simp only [emit_metas, updMeta_wk]
+    repeat' split
+    all_goals (first | rfl | (subst_vars; simp_all) | simp_all)
+  · simp only [updMeta_wk]
+
+theorem WkOk.weakDrop {c : Cfg} {w : World} (h : WkOk c w) (r : WRef) : WkOk c (w.weakDrop r) :=
+  fun u => Nat.le_trans (weakDrop_wk_le w r u) (h u)
+
+macro "wk_tac" h:term : tactic => `(tactic| (
+  intro y
+  have hy := $h y
+  simp only [weakDrop_to_wk, updMeta_wk, initMeta_wk, dropMetadata_wk, upd_metas, removeFromList_metas', addToList_metas', cloneOk_metas,
+    wk_freeBox_metas, wk_updAll_metas, s_emit_metas, s_push_metas, s_setH_metas, s_setW_metas, s_setK_metas, s_raise_metas,
+    s_raiseLogged_metas, s_startCollect_metas, World.putH]
+  repeat' split
+  all_goals (first | exact hy | exact Nat.le_trans (weakDrop_wk_le _ _ _) hy | (simp_all [updMeta_wk, initMeta_wk]; done) | (simp_all [updMeta_wk, initMeta_wk]; omega) | (subst_vars; simp_all [updMeta_wk, initMeta_wk]; omega))))
+
+set_option maxHeartbeats 16000000 in
+theorem execOp_wkOk (c : Cfg) (w : World) (self wc : Option Id) (op : Op) (h : WkOk c w) :
+    WkOk c (execOp c w self wc op) := by
+  cases op with
+  | fault kind n j => cases kind <;> exact h
+  | _ =>
+    simp only [execOp]
+    repeat' split
+    all_goals (wk_tac h)
+
+theorem foldl_free_wk (c : Cfg) (N : List Id) : ∀ (w : World) (x : Id),
+    ((N.foldl (fun w x => (if c.weak then w.dropMetadata x else w).freeBox x) w).metas x).weak = (w.metas x).weak := by
+  induction N with
+  | nil => intro w x; rfl
+  | cons y r ih =>
+    intro w x; simp only [List.foldl_cons]
+    rw [ih, wk_freeBox_metas]
+    split
+    · exact dropMetadata_wk _ _ _
+    · rfl
+
+theorem startDealloc_metas (c : Cfg) (w : World) (N : List Id) : (startDealloc c w N).metas = w.metas := by
+  unfold startDealloc
+  simp only []
+  split <;> simp
+
+theorem destroyLast_metas (c : Cfg) (w : World) (x : Id) : (destroyLast c w x).metas = w.metas := by
+  unfold destroyLast
+  simp only []
+  split <;> simp
+
+set_option maxHeartbeats 16000000 in
+theorem stepFrame_wkOk (c : Cfg) (w : World) (f : Frame) (h2 : 1 ≤ c.weakMax) (h : WkOk c w) : WkOk c (stepFrame c w f) := by
+  cases f with
+  | script ops self wc top =>
+    cases ops with
+    | nil => exact h
+    | cons op ops =>
+      simp only [stepFrame]
+      have := execOp_wkOk c (w.push (.script ops self wc top)) self wc op h
+      split <;> exact this
+  | collectPass =>
+    simp only [stepFrame]
+    generalize tracePhasesF _ _ _ _ _ = r
+    obtain ⟨res, fault⟩ := r
+    cases res with
+    | panicked hh pcRest log => simp only []; intro y; simp only [s_raiseLogged_metas]; exact h y
+    | done s =>
+      simp only []
+      split
+      · intro y; exact h y
+      · split
+        · intro y; exact h y
+        · intro y; rw [startDealloc_metas]; exact h y
+  | finalizePass N r hasFin oF =>
+    cases r with
+    | nil =>
+      simp only [stepFrame]
+      split
+      · intro y; rw [startDealloc_metas]; exact h y
+      · intro y
+        show ((({ w with finalizing := oF } : World).updAll N fun o => { o with tc := 0, mark := .pc }).metas y).weak ≤ _
+        rw [wk_updAll_metas]; exact h y
+    | cons x r => simp only [stepFrame]; split <;> (wk_tac h)
+  | deallocDrop N r oD =>
+    cases r with
+    | cons x r => simp only [stepFrame]; split <;> (wk_tac h)
+    | nil =>
+      simp only [stepFrame]
+      split
+      · exact h
+      · intro y
+        show ((N.foldl (fun w x => (if c.weak then w.dropMetadata x else w).freeBox x) w).metas y).weak ≤ _
+        rw [foldl_free_wk]; exact h y
+  | dropFields x unw =>
+    simp only [stepFrame]
+    split
+    · wk_tac h
+    · exact WkOk.weakDrop (w := (w.upd x fun _ => _).push _) h _
+    · split <;> exact h
+  | dropCc x =>
+    simp only [stepFrame]
+    repeat' split
+    all_goals first
+      | (wk_tac h)
+      | (intro y; rw [destroyLast_metas]; exact h y)
+  | dropCcAfterFin x oF =>
+    simp only [stepFrame]
+    split
+    · wk_tac h
+    · intro y; rw [destroyLast_metas]; exact h y
+  | newCyclicEnd k id sp selfw =>
+    simp only [stepFrame]
+    repeat' split
+    all_goals first
+      | (wk_tac h)
+      | (intro y
+         simp only [World.putH]
+         repeat' split
+         all_goals (simp only [s_push_metas, s_setH_metas]
+                    refine Nat.le_trans (weakDrop_wk_le _ _ _) ?_
+                    have hy := h y
+                    simp only [upd_metas, updMeta_wk]
+                    repeat' split
+                    all_goals (first | exact hy | (subst_vars; simp_all; done) | (subst_vars; simp_all; omega) | (simp_all; done) | (simp_all; omega))))
+  | regInsert owner script k cap =>
+    simp only [stepFrame]
+    split
+    · exact h
+    · split
+      · wk_tac h
+      · rename_i m hm hb
+        have hgen : ∀ (idx : Nat) (om' : Obj), om'.hasMeta = (w.heap m).hasMeta →
+            WkOk c (if (((({ w with nextAid := w.nextAid + 1 } : World).upd m fun _ => om').initMeta m).metas m).weak ≥ c.weakMax then
+                ((({ w with nextAid := w.nextAid + 1 } : World).upd m fun _ => om').initMeta m).raise
+              else ((((({ w with nextAid := w.nextAid + 1 } : World).upd m fun _ => om').initMeta m).updMeta m
+                fun mm => { mm with weak := mm.weak + 1 }).removeFromList m).setK k (some (m, idx, w.nextAid))) := by
+          intro idx om' hom y
+          have hy := h y
+          split
+          · simp only [s_raise_metas, initMeta_wk, upd_metas]
+            split
+            · exact Nat.zero_le _
+            · exact hy
+          · rename_i hg
+            simp only [s_setK_metas, removeFromList_metas', updMeta_wk, initMeta_wk, upd_metas] at hg ⊢
+            repeat' split
+            all_goals (first | exact hy | (simp_all; done) | (simp_all; omega) | (subst_vars; simp_all; done) | (subst_vars; simp_all; omega))
+        cases hfr : (w.heap m).afree with
+        | nil => simp only []; refine hgen _ _ ?_; rfl
+        | cons i fr => simp only []; refine hgen _ _ ?_; rfl
+  | newCyclicAlloc k sp body selfw =>
+    simp only [stepFrame]
+    split
+    · intro y
+      simp only [s_raiseLogged_metas, s_push_metas, updMeta_wk, s_emit_metas]
+      split
+      · exact h2
+      · exact h y
+    · intro y
+      simp only [s_push_metas, updMeta_wk, s_emit_metas]
+      split
+      · exact h2
+      · exact h y
+  | _ =>
+    simp only [stepFrame]
+    repeat' split
+    all_goals first
+      | exact h
+      | (wk_tac h)
+
+set_option maxHeartbeats 8000000 in
+theorem unwindFrame_rcOk (c : Cfg) (w : World) (f : Frame) (h : RcOk c w) : RcOk c (unwindFrame c w f) := by
+  cases f <;> simp only [unwindFrame] <;> repeat' split
+  all_goals first
+    | exact h
+    | (rc_tac h)
+    | (intro y; have hy := h y
+       simp only [updAll_rc_same _ _ (fun o : Obj => { o with mark := .non }) _ (fun _ => rfl),
+         updAll_rc_same _ _ (fun o : Obj => { o with mark := .non, dropped := o.dropped || c.weak }) _ (fun _ => rfl)]
+       exact hy)
+
+set_option maxHeartbeats 8000000 in
+theorem unwindFrame_wkOk (c : Cfg) (w : World) (f : Frame) (h : WkOk c w) : WkOk c (unwindFrame c w f) := by
+  cases f <;> simp only [unwindFrame] <;> repeat' split
+  all_goals first
+    | exact h
+    | (wk_tac h)
+
+/-- **No count ever exceeds its maximum**: in every reachable world (running or unwinding, whatever was caught) every strong
+count is at most `MAX` and every weak count at most the weak `MAX`. -/
+theorem reachable_maxOk {c : Cfg} {nH nW nK : Nat} {w : World} (h1 : 1 ≤ c.rcMax) (h2 : 1 ≤ c.weakMax)
+    (h : Reachable c nH nW nK w) : RcOk c w ∧ WkOk c w := by
+  induction h with
+  | init => exact ⟨fun x => by simp [World.init], fun x => by simp [World.init]⟩
+  | top w op _ hs hm ih => exact ih
+  | step w hr ih =>
+    have hi := (reachable_all c nH nW nK w hr).inv
+    unfold step
+    split
+    · exact ih
+    · exact ih
+    · split
+      · exact ih
+      · exact ⟨unwindFrame_rcOk c _ _ ih.1, unwindFrame_wkOk c _ _ ih.2⟩
+    · split
+      · exact ih
+      · rename_i f rest hs
+        refine ⟨stepFrame_rcOk c _ f h1 ?_ ih.1, stepFrame_wkOk c _ f h2 ih.2⟩
+        intro k id sp sw e
+        have hcy : id ∈ cycs w.stack := by
+          rw [hs, e, cycs_cons]; exact List.mem_append_left _ (by simp [Frame.cyc])
+        exact (hi.oi.zero id (hi.oi.cycZ id hcy)).2.1
 
 end RustCc
